@@ -134,8 +134,11 @@ class Session:
         """(new out lines, new err lines) since the last take()."""
         o = self.out.buffer[self._o:]
         e = self.err.buffer[self._e:]
-        self._o = len(self.out.buffer)
-        self._e = len(self.err.buffer)
+        # drop what has been read: the String stream appends by copying
+        self.out.buffer = ''
+        self.err.buffer = ''
+        self._o = 0
+        self._e = 0
         return _lines(o), _lines(e)
 
 
